@@ -55,6 +55,11 @@ func NewFiniteScheme[E algebra.GroupElement[E]](
 	if err != nil {
 		return nil, errs.Wrap(err).WithMessage("could not convert access structure to CNF")
 	}
+	if !ascnf.Shareholders().Equal(ac.Shareholders()) {
+		// A shareholder that is qualified on its own lies in no maximal unqualified set; the
+		// scheme, which hands out one piece per such set, would silently leave it without a share.
+		return nil, sharing.ErrValue.WithMessage("access structure has a shareholder that is qualified on its own; ISN sharing cannot represent it")
+	}
 	maximalUnqualifiedSets := sliceutils.Map(
 		slices.Collect(ac.MaximalUnqualifiedSetsIter()),
 		func(u ds.Set[sharing.ID]) bitset.ImmutableBitSet[sharing.ID] {
